@@ -120,6 +120,14 @@ def run(ctx):
         if len(ctx.samples) < 3 and len(exp.formulas) >= 2:
             ctx.sample({'src': c['src'][:300], 'out': (r.get('txt') or '')[:200]})
     corr.t2t(ctx, cases, results, proj=('outcome', 'toks', 'text', 'diags'), limit=ctx.scale(900, 20000))
+    mf = macro_formula_cases(rng)
+    mres = ctx.pmap(t2t.run_case, mf)
+    for c, r in zip(mf, mres):
+        ctx.case(c['src']); ctx.count('formulas_with_document_macros')
+        f = judge_macro_formula(c, r)
+        if f:
+            ctx.violation(f[0], src=c['src'], opts=c['opts'], macro_formula={'span': list(c['span']), 'punct': c['punct']})
+    corr.t2t(ctx, mf, mres, proj=('outcome', 'toks', 'text'), limit=len(mf))
     # several languages in one document: each language rotates its own collection
     docs = [mlmath.make(ctx.rng, display=False) for _ in range(ctx.scale(60, 1500))]
     flat, index = [], []
@@ -135,7 +143,46 @@ def run(ctx):
             ctx.violation(fails[0], src=flat[k]['src'], opts=flat[k]['opts'], multi=True, thresh=2, mlmath=d)
     corr.t2t(ctx, flat, res, proj=('outcome', 'toks', 'text'), limit=ctx.scale(300, 5000))
 
+def macro_formula_cases(rng):
+    """formulas that use macros of the document whose replacement is longer or shorter than the call, with and without
+    closing punctuation, in the text and as the very last thing: every generated character maps inside the formula"""
+    out = []
+    defs = [('\\newcommand{\\eps}{\\varepsilon}', '\\eps'), ('\\newcommand{\\R}{\\mathbb{R}^{n \\times m}}', '\\R'),
+            ('\\newcommand{\\norm}[1]{\\left\\lVert #1 \\right\\rVert}', '\\norm{x}'), ('\\def\\half{\\frac{1}{2}}', '\\half'),
+            ('\\newcommand{\\set}[2]{\\{ #1 \\mid #2 \\}}', '\\set{x}{x > 0}'), ('\\newcommand{\\e}{e}', '\\e')]
+    for d, use in defs:
+        for punct in ['', '.', ',', ';', ':']:
+            for op, cl in (('$', '$'), ('\\(', '\\)')):
+                for body in (use, 'a + ' + use, use + ' = 0', use + '\\,'):
+                    for tail in (' Qpost.', ''):
+                        pre = d + '\nQpre '
+                        f = op + body + punct + cl
+                        out.append({'src': pre + f + tail, 'opts': {'pack': '*', 'lang': rng.choice(['en', 'de', 'ru'])}, 'multi': False,
+                                    'kind': 'macro-formula', 'span': (len(pre), len(pre) + len(f)), 'punct': punct})
+    return out
+
+def judge_macro_formula(c, r):
+    if r['outcome'] != 'ok' or r['stderr'].strip():
+        return []
+    a, b = c['span']
+    txt, pos = r['txt'], r['pos']
+    copied = set()
+    for m in semrun.WORD.finditer(txt):
+        copied.update(range(m.start(), m.end()))
+    n = len(c['src'])
+    gen = [(i, ch, p) for i, (ch, p) in enumerate(zip(txt, pos)) if i not in copied and not ch.isspace() and not (ch == '.' and p == n and b < n)]
+    for i, ch, p in gen:
+        if not (a < p <= b):
+            return ['formula %r at %d..%d: the generated character %r maps to offset %d, outside the formula (text %r, positions %r)'
+                    % (c['src'][a:b], a + 1, b, ch, p, txt, pos)]
+    if c['punct'] and not any(ch == c['punct'] for i, ch, p in gen):
+        return ['formula %r: its closing punctuation mark %r is not in the output %r' % (c['src'][a:b], c['punct'], txt)]
+    return []
+
 def judge_witness(w):
+    if w.get('macro_formula'):
+        c = {'src': w['src'], 'opts': w.get('opts') or {}, 'multi': False, 'span': tuple(w['macro_formula']['span']), 'punct': w['macro_formula']['punct']}
+        return judge_macro_formula(c, t2t.run_case(c))
     return []
 
 def rejudge(c):
@@ -145,7 +192,9 @@ def rejudge(c):
 def replay(data):
     v = data['violation']
     f = None
-    if v.get('mlmath'):
+    if v.get('macro_formula'):
+        f = judge_witness(v)
+    elif v.get('mlmath'):
         d = v['mlmath']; d['segs'] = [(l, how, [tuple(i) for i in items]) for (l, how, items) in d['segs']]
         full, per = mlmath.cases_of(d)
         f = mlmath.judge(d, t2t.run_case(full), {l: t2t.run_case(per[l]) for l in per})
